@@ -558,13 +558,16 @@ fn red_prod(n: usize, salt: u64) -> Vec<f64> {
 /// log-domain data, all |x| <= 1e4: a cluster within ~60 of a base (so several terms contribute)
 /// plus entries anywhere in [-1e4, 1e4]
 fn red_log(n: usize, salt: u64) -> Vec<f64> {
-    const BASES: [f64; 8] = [-1e4, -745.0, -1.0, 0.0, 1.0, 709.0, 5000.0, 1e4];
-    let base = BASES[(Hx::new().u(salt).s("base").finish() % 8) as usize];
+    const BASES: [f64; 11] = [-1e4, -745.0, -1.0, 0.0, 1.0, 709.0, 5000.0, 1e4, 704.0, 707.5, -706.0];
+    let base = BASES[(Hx::new().u(salt).s("base").finish() % 11) as usize];
+    // a third of the data sets are tight clusters (width 2): with many terms just below the overflow threshold of
+    // exp, every exp(x_i) is representable but their sum is not — the shift by the maximum is needed all the same
+    let width = if Hx::new().u(salt).s("tight").finish() % 3 == 0 { 2.0 } else { 120.0 };
     (0..n)
         .map(|i| {
             let h = Hx::new().u(salt).u(i as u64).s("log").finish();
             let h2 = Hx::new().u(h).finish();
-            let x = if h % 10 < 7 { base + (unit(h2) - 0.5) * 120.0 * unit(h2 >> 3).max(0.01) } else { (2.0 * unit(h2) - 1.0) * 1e4 };
+            let x = if h % 10 < 7 || width < 10.0 { base + (unit(h2) - 0.5) * width * unit(h2 >> 3).max(0.01) } else { (2.0 * unit(h2) - 1.0) * 1e4 };
             x.clamp(-1e4, 1e4)
         })
         .collect()
